@@ -5,7 +5,9 @@ from numpy import sqrt, log
 class EpsilonSelector:
     def __init__(self, epsilon: float):
         # storage
-        self.epsilon = epsilon
+        # (a plain float, as load_items() restores it: a numpy scalar takes part in
+        # type promotion differently, e.g. with a single-precision gradient)
+        self.epsilon = float(epsilon)
         self.epsilon_values = [copy(epsilon)]  # sigma values after each assessment
         self.epsilon_checks = [0.0]  # chain locations at which sigma was assessed
 
@@ -49,7 +51,7 @@ class EpsilonSelector:
             self.chk_int = int((self.growth_factor * self.chk_int) * 0.1) * 10
 
     def adjust_epsilon(self, ratio: float):
-        self.epsilon *= ratio
+        self.epsilon = float(self.epsilon * ratio)
         self.epsilon_values.append(copy(self.epsilon))
         self.epsilon_checks.append(self.epsilon_checks[-1] + self.num)
         self.avg = 0
